@@ -52,6 +52,9 @@ fn faults() -> Vec<Fault> {
         g("constant-redefinition", ".const dupc_q = 1\nnop\n.const dupc_q = 2", (2, 2)),
         f("illegal-addressing-mode", "lda ($10)", true),
         f("illegal-addressing-mode-2", "stx $10,x", true),
+        // (zero-page forms exist for these two, absolute forms do not: legal or not depends on the operand's size)
+        f("illegal-addressing-mode-stx-abs-y", "stx $1234,y", true),
+        f("illegal-addressing-mode-sty-abs-x", "sty $1234,x", true),
         f("immediate-out-of-range", "lda #256", true),
         // (boundary values: the smallest distances that are out of range, +128 and -129)
         g("branch-out-of-range", "{\nbne far_q\n.loop 128 { nop }\nfar_q:\n}", (1, 1)),
@@ -217,7 +220,20 @@ struct Case {
 fn cases() -> Vec<Case> {
     let mut out = vec![];
     let fs = faults();
-    for p in base_programs().into_iter().filter(|p| p.valid) {
+    let mut bases: Vec<mvlib::progs::Prog> = base_programs().into_iter().filter(|p| p.valid).collect();
+    // a program that needs many passes to settle (every pass resolves one more link of a chain of constants that
+    // refer forward): the fault has to be reported all the same, however long that takes
+    {
+        let n = 55;
+        let mut stmts = vec![ins("lda", mvlib::isa::Form::Imm, id("c0"))];
+        for i in 0..n {
+            stmts.push(konst(&format!("c{}", i), bin(id(&format!("c{}", i + 1)), "+", num(0))));
+        }
+        stmts.push(konst(&format!("c{}", n), num(7)));
+        stmts.push(imp("rts"));
+        bases.push(mvlib::progs::Prog { name: "slow-settling".into(), stmts, valid: true });
+    }
+    for p in bases.into_iter() {
         let mut sites = vec![];
         collect_sites(&p.stmts, &mut vec![], "top", true, &mut sites);
         for site in &sites {
@@ -430,7 +446,7 @@ pub fn run(ctx: &Ctx, replay: Option<&Value>) -> i32 {
     let _ = std::fs::remove_dir_all(&scratch);
     ctx.finish(
         "fault_enumeration",
-        "16 fault texts of the 11 error classes (undefined symbol/macro/segment, label and constant redefinition, illegal addressing mode, immediate and branch out of range, macro arity, malformed statements, unclosed block) x every statement slot of every valid base program (top level, braces, label blocks, loop bodies, taken if/else branches, invoked macro bodies, segment blocks, import parameter blocks) and every line boundary of the imported file; parse-level faults also in code that is not assembled. In-process: >= 1 diagnostic and one inside the injected construct's lines; real binary (one per class x context in quick, all in thorough): exit status 1, stdout names file:line:col, target directory holds only the two pre-existing files, unmodified. non-trivial = distinct (project text, class, context)",
+        "20 fault texts of the 11 error classes (undefined symbol/macro/segment, label and constant redefinition, illegal addressing mode, immediate and branch out of range, macro arity, malformed statements, unclosed block) x every statement slot of every valid base program (top level, braces, label blocks, loop bodies, taken if/else branches, invoked macro bodies, segment blocks, import parameter blocks) and every line boundary of the imported file; parse-level faults also in code that is not assembled. In-process: >= 1 diagnostic and one inside the injected construct's lines; real binary (one per class x context in quick, all in thorough): exit status 1, stdout names file:line:col, target directory holds only the two pre-existing files, unmodified. non-trivial = distinct (project text, class, context)",
         true,
         &[
             "exactly one fault per program (deviation bound 1)",
